@@ -1,4 +1,48 @@
-import ZbossModel.Host
+import ZbossModel.Proofs.Host
+/-! # C13 - a finished request leaves nothing behind, however it finished
+
+`Host.step` is the request machine at quiescent points: request start, ACK / response bytes,
+timer expiry (ACK wait or response timeout), cancellation of a request task in any phase, close,
+connection loss.  `listeners` are the one-shot response listeners `request` registers. -/
 namespace Zboss.Host
-theorem C13_placeholder : True := trivial
+
+/-- **no residue, every history**: after any sequence of events every registered response listener belongs
+    to a request that is still running -/
+theorem C13_no_residue (evs : List Ev) : NoResidue (runEvents {} evs).1 := nr_reachable evs
+
+/-- hence a request that has ended - by response, timeout, cancellation in any phase, close or loss - has no
+    listener registered (request ids are unique) -/
+theorem C13_finished_has_no_listener (evs : List Ev) (r : Req) (hr : r ∈ (runEvents {} evs).1.reqs)
+    (hdone : r.phase = .done) : ∀ l ∈ (runEvents {} evs).1.listeners, l.1 ≠ r.id := by
+  intro l hl heq
+  obtain ⟨r', hr', hid, hph⟩ := C13_no_residue evs l hl
+  have hn := (inv2_reachable evs).1
+  have : r' = r := unique_of_id _ hn r' r hr' hr (by rw [hid, heq])
+  rw [this] at hph
+  exact hph hdone
+
+/-- a response is only ever handed to a running request: the listener it resolves is the first one registered
+    for that command, and that listener's request has not finished -/
+theorem C13_response_to_running (evs : List Ev) (key i k : Nat)
+    (h : (runEvents {} evs).1.listeners.find? (fun l => l.2 == key) = some (i, k)) :
+    ∃ r ∈ (runEvents {} evs).1.reqs, r.id = i ∧ r.phase ≠ .done :=
+  C13_no_residue evs (i, k) (List.mem_of_find?_eq_some h)
+
+/-- the listener is removed in the very step in which its request finishes (`finish` is the only place a
+    request becomes done) -/
+theorem C13_finish_removes (st : St) (i : Nat) (o : Outcome) : ∀ l ∈ (finish st i o).listeners, l.1 ≠ i := by
+  intro l hl
+  simp only [finish, emit, List.mem_filter] at hl
+  simpa using hl.2
+
+/-- a task step never registers a listener: listeners only disappear while requests run -/
+theorem C13_no_new_listeners (fuel : Nat) (st : St) : ∀ l ∈ (settle fuel st).listeners, l ∈ st.listeners :=
+  (frame_settle fuel st).listeners
+
+/-! ## non-vacuity: a request cancelled while queued behind the message lock leaves no listener, and the
+    response that arrives later goes to the next request for that command -/
+example : let r := runEvents {} [.start 1 5 true 2 3013, .start 2 5 true 1 5026, .cancel 2, .rxAck 0, .rxAck 1,
+      .start 3 5 true 1 3039, .rxRsp 5, .rxAck 2, .rxRsp 5]
+    r.1.listeners = [] ∧ r.2.getLast? = some [.wack, .done 3 .ret] := by decide +kernel
+
 end Zboss.Host
